@@ -1,3 +1,3 @@
-import PybtexModel.Model.Basic
+import PybtexModel.Model.Engine
 namespace Pybtex.Props
 end Pybtex.Props
